@@ -498,6 +498,18 @@ func (g *gcHist) checkSnap(before, after readSnap, phase string) {
 			if _, wb := g.wroteBack[fmt.Sprintf("%s@%d", kx, v1)]; v1 == v2 && n >= 2 && wb {
 				sig = sigF27
 			}
+			if v1 != v2 {
+				// another (older, written-back) version of a key whose newest version is a delete or
+				// has expired became visible: the resurrection findings, seen from a state in which
+				// an even older version was already showing
+				for _, key := range g.keyUniverse(-1) {
+					if fmt.Sprintf("%x", key) == kx {
+						if c := g.classify(key, ts, true, v2, false, 0); c == sigF23 || c == sigF26 {
+							sig = c
+						}
+					}
+				}
+			}
 			break
 		}
 		if before[k] == "-" && strings.HasPrefix(a, "v") {
@@ -686,6 +698,14 @@ func (g *gcHist) gcRun(fid uint32, ratio float64, winA, winB, winC func()) error
 			return nil
 		}
 		if err != nil && strings.Contains(err.Error(), "already marked for deletion") {
+			if ratio > 0 {
+				// RunValueLogGC picked the file itself: its id is in the error text
+				var picked uint32
+				if i := strings.LastIndex(err.Error(), "fid: "); i >= 0 {
+					fmt.Sscanf(err.Error()[i+5:], "%d", &picked)
+				}
+				fid = picked
+			}
 			g.emit(fmt.Sprintf("(GcStart %d 1)", fid), fmt.Sprintf("gc-start fid=%d: already marked for deletion", fid))
 			return nil
 		}
@@ -1016,6 +1036,12 @@ func (g *gcHist) finish() {
 func runGcHistory(c *Ctx, i int) (*gcHist, error) {
 	o := sysOpts{Managed: i%4 == 3, Detect: false, NKeep: []int{1, 1, 2, 3}[c.Rng.Intn(4)], MaxLevels: 4, VThreshold: 32,
 		TableSize: int64(256) << uint(c.Rng.Intn(5)), BaseLevelSize: []int64{200, 600, 2 << 10, 8 << 10}[c.Rng.Intn(4)]}
+	deep := i%3 == 1
+	if deep {
+		// the last level outgrows BaseLevelSize early, so compactions (also those that run inside a
+		// rewrite) go into a level ABOVE the last one
+		o.BaseLevelSize, o.TableSize = 200, 256
+	}
 	g, err := newGcHist(c, o, 1+c.Rng.Intn(3))
 	if err != nil {
 		return nil, err
@@ -1024,6 +1050,10 @@ func runGcHistory(c *Ctx, i int) (*gcHist, error) {
 	g.keys = keySetA[:3+c.Rng.Intn(4)]
 	g.sameTs = o.Managed && i%8 == 7
 	nOps := 25 + c.Rng.Intn(35)
+	if deep {
+		g.keys = keySetA[:6+c.Rng.Intn(4)]
+		nOps = 50 + c.Rng.Intn(40)
+	}
 	for step := 0; step < nOps && !g.stop; step++ {
 		if c.Rng.Intn(100) < 14 {
 			if fs := g.sealedFiles(); len(fs) > 0 {
